@@ -211,6 +211,25 @@ pub fn fam_timeouts(b: &Base, silence: bool, out: &mut Vec<CaseSpec>) {
     }
 }
 
+/// degenerate file contents (all zero, sparse with holes, all 0xFF, text): fault-free, and with `faults` every single
+/// drop on top
+pub fn fam_content(b: &Base, faults: bool, out: &mut Vec<CaseSpec>) {
+    use crate::sim::{with_kind, KIND_ONES, KIND_SPARSE, KIND_TEXT, KIND_ZEROS};
+    for (kind, kn) in [(KIND_ZEROS, "zeros"), (KIND_SPARSE, "sparse"), (KIND_ONES, "ones"), (KIND_TEXT, "text")] {
+        out.push(with(b, "content", kn.to_string(), |s| s.seed = with_kind(s.seed, kind)));
+        if faults && (kind == KIND_ZEROS || kind == KIND_SPARSE) {
+            for (dir, cnt, dn) in [(Dir::W2P, b.n_w2p, "w2p"), (Dir::P2W, b.n_p2w, "p2w")] {
+                for idx in 0..cnt.min(24) {
+                    out.push(with(b, "content", format!("{kn}:{dn}#{idx}:drop"), |s| {
+                        s.seed = with_kind(s.seed, kind);
+                        s.rules.push(Rule::Idx { dir, idx, act: Act::Drop })
+                    }));
+                }
+            }
+        }
+    }
+}
+
 /// single drops with different peer timers, so that either side times out first
 pub fn fam_timers(b: &Base, protect_handshake: bool, out: &mut Vec<CaseSpec>) {
     for (tp, tn) in [(T - 300 * MS, "Tp<T"), (T + 300 * MS, "Tp>T"), (2 * T, "Tp=2T"), (T / 2, "Tp=T/2")] {
